@@ -456,6 +456,14 @@ def variants(ctx, k):
     ctx.nontrivial(type(mc.mesh).__name__, which)
 
 
+def _from_used(cls, src):
+    """cls.from_mesh(src) after src's own tables were built (in the local order src keeps its cells in)."""
+    _ = (src.facets, src.t2f, src.f2t, src.boundary_facets())
+    if src.dim() == 3:
+        _ = (src.edges, src.t2e)
+    return cls.from_mesh(src)
+
+
 def after_operations(ctx, k):
     """Connectivity of a mesh re-checked after other public operations were called on it: the cached tables must still
     describe the (unchanged) cell list."""
@@ -476,13 +484,33 @@ def after_operations(ctx, k):
                      ("with_boundaries", lambda: mesh.with_boundaries({"b": lambda x: x[0] < np.median(x[0])})),
                      ("smoothed", lambda: mesh.smoothed()), ("scaled", lambda: mesh.scaled(2.0) if d == 1 else mesh.scaled(tuple([2.0] * d))),
                      ("element_finder", lambda: mesh.element_finder()), ("to_dict", lambda: mesh.to_dict()),
-                     ("remove_elements", lambda: mesh.remove_elements(np.array([0])))):
+                     ("remove_elements", lambda: mesh.remove_elements(np.array([0]))),
+                     ("remove_last", lambda: mesh.remove_elements(np.array([mesh.t.shape[1] - 1]))),
+                     ("restrict-hole", lambda: mesh.restrict(np.sort(rng.permutation(mesh.t.shape[1])[: max(1, (3 * mesh.t.shape[1]) // 4)]))),
+                     ("from_mesh", lambda: type(mesh).from_mesh(mesh)),
+                     ("from_mesh-order2", lambda: G.mesh_class(kind, 2).from_mesh(mesh)),
+                     ("from_mesh-of-oriented", lambda: _from_used(type(mesh), mesh.oriented())),
+                     ("from_mesh-of-adaptive", lambda: _from_used(type(mesh), mesh.refined(np.array([0])))),
+                     ("from_mesh-order2-and-back", lambda: _from_used(type(mesh), G.mesh_class(kind, 2).from_mesh(mesh))),
+                     ("translated", lambda: mesh.translated(tuple([0.5] * d))),
+                     ("with_subdomains", lambda: mesh.with_subdomains({"s": np.arange(max(1, mesh.t.shape[1] // 2))}))):
         if rng.random() < 0.6:
             try:
-                fn()
+                out = fn()
                 ops.append(name)
             except Exception:
-                pass   # an operation the class does not offer
+                continue   # an operation the class does not offer
+            # the mesh an operation returns is a mesh of the statement as well: its tables describe ITS cell list (not
+            # tables inherited from the mesh it was made from, whose were in use)
+            import skfem
+            if isinstance(out, skfem.Mesh) and out is not mesh and out.t.shape[1] <= 400:
+                try:
+                    k2 = G.kind_of(out)
+                except Exception:
+                    continue
+                check_mesh(ctx, out, k2, dict(mc.desc, phase="result-of-" + name))
+                ctx.reached("result-of-operation-checked")
+                ctx.reached("result-checked:" + name.split("-")[0])
     ctx.check("renumbering-invariance", np.array_equal(np.asarray(mesh.t), t0), mech="operation-modifies-cell-list-of-operand",
               ops=ops, kind=kind)
     check_mesh(ctx, mesh, kind, dict(mc.desc, phase="after", ops=ops))
@@ -568,4 +596,5 @@ FAMILIES.append(Family("large-meshes", large_meshes, 4, 16, budget={"quick": 120
 FAMILIES.append(Family("docs-meshes", docs_meshes, 1, 1, budget={"quick": 60, "thorough": 120}))
 REQUIRED_REACH = ["several-components", "f2e-checked", "docs-meshes-loaded", "rechecked-after-operations", "periodic-topology",
                   "cavities-in-tensor-type-meshes", "triangles-in-given-local-order", "single-cell-meshes", "points-no-cell-uses",
-                  "tables-in-random-first-access-order", "wedge-shifted-local-order", "more-than-2^16-vertices"]
+                  "tables-in-random-first-access-order", "wedge-shifted-local-order", "more-than-2^16-vertices", "result-of-operation-checked",
+                  "result-checked:from_mesh", "result-checked:restrict", "result-checked:oriented"]
